@@ -44,4 +44,11 @@ theorem pin_par_NewQueue : Gen.C14.pin_par_NewQueue = "f89211cea39e8ea6" := by d
 theorem pin_par_Queue_Add : Gen.C14.pin_par_Queue_Add = "b1793b1d2f696e9c" := by decide
 theorem pin_par_Queue_Idle : Gen.C14.pin_par_Queue_Idle = "f90cee8ecea242a1" := by decide
 
+-- extension round (session 3): Model/MvsOps.lean transcribes exactly these versions
+theorem pin_mvs_Req : Gen.C14.pin_mvs_Req = "863698a5eddfa5f0" := by decide
+theorem pin_mvs_Upgrade : Gen.C14.pin_mvs_Upgrade = "ec442e9c2af06a50" := by decide
+theorem pin_mvs_UpgradeAll : Gen.C14.pin_mvs_UpgradeAll = "a48222a8a8a47bf6" := by decide
+theorem pin_mvs_Downgrade : Gen.C14.pin_mvs_Downgrade = "1025aa7a8a373dfe" := by decide
+theorem pin_mvs_override_Required : Gen.C14.pin_mvs_override_Required = "949714b36fe3000f" := by decide
+
 end CueVerif.Bridge.C14
